@@ -435,6 +435,14 @@ func Main(args []string) int {
 	return exit
 }
 
+// RepoDir is /repo unless VERIF_REPO names another checkout (harness development only; the registered commands use /repo).
+func RepoDir() string {
+	if d := os.Getenv("VERIF_REPO"); d != "" {
+		return d
+	}
+	return "/repo"
+}
+
 // Root is the verification root (default /verif; a snapshot run sets VERIF_ROOT).
 func Root() string { return envOr("VERIF_ROOT", "/verif") }
 
